@@ -12,7 +12,13 @@ from . import c06
 from .c06 import (MOMENTS, LOSS_RANGES, costs_ok, fl, gen_bounds, gen_dataset, index_keys, make_inputs, make_moment,
                   make_predictor, spec_config, spec_err, spec_loss, spec_order, spec_parity, strata_stats)
 
-RTOL = 1e-9
+# measured on the clean tree (review R1, quick tier seed 0, 1508 cases): max |a-b|/(1+|b|+scale) over every `near`
+# comparison = 5.2e-16; sample weights handed to the learner vs exact model: 7.3e-14 relative (`W_CMP_TOL`); whole-fit
+# weights vs float recomputation: 3.4e-14 (`W_FIT_TOL`).  Tolerances = 100 x measured, floored at 1e-12.
+RTOL = 1e-12
+W_CMP_TOL = 7e-12
+W_FIT_TOL = 3e-12
+LIVE_TOL = 1e-10     # a row counts as carrying weight when |w| exceeds this fraction of the largest |w| (rounding of 0)
 
 
 def near(a, b, scale=1.0):
@@ -143,7 +149,9 @@ class CHECK(Check):
                   "(eg/grid_weighted_error_affine), arg-min sets over ANY hypothesis class coincide in both directions "
                   "(eg/grid_argmin_iff), the DummyClassifier shortcut returns a minimiser (dummy_is_minimiser, "
                   "eg/grid_dummy_minimises_lagrangian), zero-weight rows' labels are irrelevant so > vs >= is harmless "
-                  "(relabel_nonstrict_harmless), regression reductions (loss_oracle_identity, loss_grid_identity). Tie: translator-"
+                  "(relabel_nonstrict_harmless), regression reductions (loss_oracle_identity, loss_grid_identity); lagrangian_identity "
+                  "(objective + constraints), project_lambda_guarantee (any ratio; slack >= 0 needed: "
+                  "project_lambda_needs_nonneg_slack), objective_needs_unit_interval. Tie: translator-"
                   "lifted expressions + fairlearn's numbers vs the compiled Lean model; the identities are also "
                   "evaluated directly on fairlearn's own gamma / signed_weights / project_lambda outputs.")
     design_ref = "DESIGN.md section 4, C07"
@@ -153,16 +161,16 @@ class CHECK(Check):
     thorough_budget_s = 900
     workers_thorough = 4
     rule = ("C06's datasets (4..30 rows, 2..4 groups, optional control feature with 1..3 strata, five parity moments x "
-            "difference/ratio bounds) x multipliers lambda >= 0 (unit vectors and random dyadic vectors in index order or "
+            "difference/ratio bounds, slack >= 0) x multipliers lambda >= 0 (unit vectors and random dyadic vectors in index order or "
             "reversed label order) x pairs of predictors (unit, hard, soft dyadic); ErrorRate objective with dyadic costs; "
             "BoundedGroupLoss with Square/Absolute/ZeroOne loss; kinds: 'parity' (Moment API), 'eg' (_Lagrangian."
             "_call_oracle with a recording learner), 'grid' (GridSearch.fit with a user grid and a recording learner), "
-            "'bgl', 'bgl-eg', 'bgl-grid', 'fit' (whole ExponentiatedGradient / GridSearch runs; every oracle call is replayed "
+            "'bgl', 'bgl-eg', 'bgl-grid' (constant regression labels are not run through the reductions: tag skipped:constant-regression-labels), 'fit' (whole ExponentiatedGradient / GridSearch runs; every oracle call is replayed "
             "through Oracle.callOracleParity / callGridParity with the exact rational value of the float multipliers). "
             "distinct = distinct full case; non-trivial = the multiplier vector is non-zero and h != h'; thorough "
             "additionally enumerates all 3- and 4-row label x two-group assignments x five moments through both reductions")
     explanation = ("theorems over Model/Moments.lean; the reduction / objective / loss identities, the best-response "
-                   "identity and project_lambda's guarantee are evaluated on fairlearn's own outputs (relative tol 1e-9); "
+                   "identity and project_lambda's guarantee are evaluated on fairlearn's own outputs (relative tol 1e-12; measured deviation 5e-16); "
                    "signed_weights is additionally compared with -n * gradient of lambda.gamma computed from the "
                    "property's definition of gamma in Fractions, and with the compiled Lean model")
     trusted = c06.CHECK.trusted + (
@@ -588,7 +596,7 @@ class CHECK(Check):
                 exact = [owx[i] + sum(l * b[i] for l, b in zip(lamx, basisx)) for i in range(n)]
                 r = call["fit"]
                 ps = self._cmp_call(model[f"call{ci}"], exact, [float(x) for x in exact], n, case["algo"] == "eg",
-                                    r is None, None, r, f"call {ci} of {case['algo']} fit", live_tol=1e-7)
+                                    r is None, None, r, f"call {ci} of {case['algo']} fit", live_tol=LIVE_TOL)
                 if ps:
                     probs.extend(ps)
                     break
@@ -597,7 +605,7 @@ class CHECK(Check):
             wt = [ow[i] + sum(l * b[i] for l, b in zip(lamf, basis)) for i in range(n)]
             aw = [abs(x) for x in wt]
             big = max(aw + [1.0])
-            live = [i for i in range(n) if aw[i] > 1e-7 * big]
+            live = [i for i in range(n) if aw[i] > LIVE_TOL * big]
             z = [1 if x > 0 else 0 for x in wt]
             r = call["fit"]
             where = f"call {ci}, lambda={dict((str(k), v) for k, v in zip(keys, lamf) if v != 0)}"
@@ -611,7 +619,7 @@ class CHECK(Check):
             rw = r["w"]
             factor = None if rw is None or sum(aw) == 0 else sum(rw) / sum(aw)
             bad_w = list(range(n)) if factor is None or not factor > 0 else \
-                [i for i in range(n) if abs(rw[i] - factor * aw[i]) > 1e-7 * (1 + factor) * big]
+                [i for i in range(n) if abs(rw[i] - factor * aw[i]) > W_FIT_TOL * (1 + factor) * big]
             if bad_y:
                 i = bad_y[0]
                 probs.append(Problem("property", f"learner received label {r['y'][i]} for row {i} but w = {wt[i]!r} "
@@ -798,7 +806,7 @@ class CHECK(Check):
         bad_y = [i for i in live if rec["y"][i] != float(my[i])]
         sc = max([float(x) for x in mw] + [1.0])
         rw = rec["w"]
-        bad_w = list(range(n)) if rw is None else [i for i in range(n) if abs(rw[i] - float(mw[i])) > 1e-7 * sc]
+        bad_w = list(range(n)) if rw is None else [i for i in range(n) if abs(rw[i] - float(mw[i])) > W_CMP_TOL * sc]
         if bad_y:
             i = bad_y[0]
             probs.append(Problem("correspondence", f"row {i}: learner received label {rec['y'][i]}, model (lifted source) says "
